@@ -227,7 +227,17 @@ func (d *Decoder) readTypedList(tag byte) (interface{}, error) {
 		return nil, newCodecError("readTypedList", "can't find list type %s", listTyp)
 	}
 
-	aryValue := reflect.MakeSlice(aryType, length, length)
+	if aryType.Kind() != reflect.Slice {
+		return nil, newCodecError("readTypedList", "list type %s is registered as %v, not a slice", listTyp, aryType)
+	}
+
+	// a declared length beyond _maxPreAlloc does not drive allocation: the list grows as elements arrive
+	grow := isVariableArr || length > _maxPreAlloc
+	preLen := length
+	if grow {
+		preLen = 0
+	}
+	aryValue := reflect.MakeSlice(aryType, preLen, preLen)
 	holder := d.addDecoderRef(aryValue)
 
 	for j := 0; j < length || isVariableArr; j++ {
@@ -240,7 +250,7 @@ func (d *Decoder) readTypedList(tag byte) (interface{}, error) {
 		}
 
 		v := EnsureRawValue(item)
-		if isVariableArr {
+		if grow {
 			cv, err := convertValue(v, aryType.Elem())
 			if err != nil {
 				return nil, newCodecError("readTypedList", err)
@@ -286,7 +296,13 @@ func (d *Decoder) readUntypedList(tag byte) (interface{}, error) {
 		return nil, nil
 	}
 
-	ary := make([]interface{}, length)
+	// a declared length beyond _maxPreAlloc does not drive allocation: the list grows as elements arrive
+	grow := isVariableArr || length > _maxPreAlloc
+	preLen := length
+	if grow {
+		preLen = 0
+	}
+	ary := make([]interface{}, preLen)
 	aryValue := reflect.ValueOf(ary)
 	holder := d.addDecoderRef(aryValue)
 
@@ -299,7 +315,7 @@ func (d *Decoder) readUntypedList(tag byte) (interface{}, error) {
 			return nil, newCodecError("readUntypedList", err)
 		}
 
-		if isVariableArr {
+		if grow {
 			if it == nil {
 				aryValue = reflect.Append(aryValue, reflect.Zero(aryValue.Type().Elem()))
 			} else {
